@@ -409,7 +409,7 @@ def r194(ctx, res):
             short = f.short if f else "<module>"
             live = False
             # direct getter call, or a local assigned (only) from expressions containing a getter call
-            def has_getter(e, depth=0):
+            def has_getter(e, depth=0, f=f):
                 for x in ast.walk(e):
                     if isinstance(x, ast.Call) and isinstance(x.func, ast.Name):
                         b = f.resolve(x.func.id) if f else mod.resolve(x.func.id)
@@ -420,8 +420,29 @@ def r194(ctx, res):
                     for x in ast.walk(e):
                         if isinstance(x, ast.Name) and x.id in asg:
                             defs = asg[x.id]
-                            if defs and all(isinstance(d, ast.Assign) and has_getter(d.value, depth + 1) for d in defs):
+                            if defs and all(isinstance(d, ast.Assign) and has_getter(d.value, depth + 1, f) for d in defs):
                                 return True
+                    # a parameter that every caller fills from the getter:  def _rounded(self, digits) ... self._rounded(get_sig_figures())
+                    if isinstance(e, ast.Name) and e.id in f.params and e.id not in asg:
+                        idx = f.params.index(e.id)
+                        sites = []
+                        for g_ in ctx.repo.functions(include_visualization=False):
+                            for c_ in walk_local(g_.node):
+                                if isinstance(c_, ast.Call) and f.qual in ctx.types.call_targets.get((g_.qual, id(c_)), ()):
+                                    sites.append((g_, c_))
+                        ok_all = True  # (no call site left: a helper whose calls were all read as its body, or an entry point whose
+                        #               caller chooses the precision)
+                        for g_, c_ in sites:
+                            off = 1 if (f.self_name is not None and isinstance(c_.func, ast.Attribute)) else 0
+                            actual = None
+                            if idx - off < len(c_.args) and idx - off >= 0:
+                                actual = c_.args[idx - off]
+                            for k_ in c_.keywords:
+                                if k_.arg == e.id:
+                                    actual = k_.value
+                            if actual is None or not has_getter(actual, depth + 1, g_):
+                                ok_all = False
+                        return ok_all
                 return False
 
             live = has_getter(prec)
@@ -458,6 +479,38 @@ def run(ctx, res):
     k = report_exact(ctx, res, "R19.5", fs, "the library")
     ctx.require(res, "R19.5", k, 250, "decision atoms examined")
     # R19.6 identity of points / vectors is decided by their tolerant __eq__ / __hash__, never by raw coordinate tuples
+    # R19.8 Point / Vector equality compares every coordinate difference with a threshold that does not grow with the
+    # coordinates: "Points or Vectors differing by more than 4 eps in some coordinate compare unequal"
+    from ..exact import float_source
+    n8 = 0
+    for cname in ("Point", "Vector"):
+        m8 = ctx.repo.cls(cname).lookup("__eq__") if ctx.repo.has_cls(cname) else None
+        if m8 is None:
+            continue
+        for c8 in walk_local(m8.node):
+            if isinstance(c8, ast.Compare) and len(c8.ops) == 1 and isinstance(c8.ops[0], (ast.Lt, ast.LtE, ast.Gt, ast.GtE)):
+                sides = [c8.left, c8.comparators[0]]
+                thr = [x for x in sides if any(isinstance(y, ast.Call) and isinstance(y.func, ast.Name) and y.func.id in ("get_eps",) for y in ast.walk(x))
+                       or any(isinstance(y, ast.Name) and y.id in ("eps", "tol", "tolerance") for y in ast.walk(x))]
+                if len(thr) != 1:
+                    continue
+                n8 += 1
+                t8 = thr[0]
+                names8 = {y.id for y in ast.walk(t8) if isinstance(y, ast.Name)}
+                comp_vars = {g.id for ge in walk_local(m8.node) if isinstance(ge, ast.comprehension) for g in ast.walk(ge.target) if isinstance(g, ast.Name)}
+                w8 = float_source(ctx, m8, t8) or (sorted(names8 & (set(m8.params) | comp_vars)) or None)
+                ok8 = not w8
+                res.ob("R19.8", m8.where(c8), "%s.__eq__: threshold `%s`" % (cname, txt(t8)[:40]), ok8,
+                       "an absolute tolerance" if ok8 else "grows with the coordinates (%s)" % (w8,))
+                if not ok8:
+                    res.violation("R19.8", m8, c8, "%s.__eq__ compares a coordinate difference with `%s`, a threshold that grows with the coordinates "
+                                  "(%s): far from the origin two %ss that differ by more than 4 eps compare equal, and %s.__eq__ no "
+                                  "longer agrees with the absolute tolerance the rest of the library (and the hash grid) uses"
+                                  % (cname, txt(t8)[:50], w8, cname, cname), construct="%s.__eq__ relative threshold" % cname)
+    ctx.require(res, "R19.8", n8, 2, "threshold comparisons in Point / Vector equality")
+    from ..exact import report_rounding
+    k7 = report_rounding(ctx, res, "R19.7", fs, "the result")
+    ctx.require(res, "R19.7", k7, 100, "functions scanned for rounding outside the hash methods")
     from ..exact import report_coordinate_keys
     k6 = report_coordinate_keys(ctx, res, "R19.6", fs, "the library")
     ctx.require(res, "R19.6", k6, 150, "functions scanned")
